@@ -23,6 +23,7 @@ mod c12x;
 mod c12fs;
 mod c13;
 mod c13x;
+mod stream_api;
 mod c09;
 mod c10;
 mod c14;
